@@ -303,6 +303,7 @@ def _zone_content(draw, no_normalizing, external_only, neg=None):
         ctx["targets"] = [rel + list(origin) for rel, _ in owners]
     nodes = []
     kinds = {}
+    singles = set()
     soa_min = draw(st.sampled_from(ttls))
     for rel, tags in owners:
         key = W.name_key(rel)
@@ -319,9 +320,17 @@ def _zone_content(draw, no_normalizing, external_only, neg=None):
         kinds.setdefault(key, kind)
         spelled = [G.flip_case(draw, l) for l in origin] if "apex" in tags and kind == "more" else list(origin)
         sets = draw(_node_sets("regular" if kind == "more" else kind, rdclass, ctx, ttls, no_normalizing, soa_min))
-        if kind == "more":
-            # additional data at an existing regular owner: no second SOA, no duplicate type
-            sets = [s for s in sets if s["t"] not in ("SOA",)]
+        # singleton types (dns.rdatatype.is_singleton: SOA, CNAME, DNAME, NSEC): at most one record
+        # per owner -- adding a second one replaces the first by design
+        keep = []
+        for s in sets:
+            if s["t"] in ("SOA", "CNAME", "DNAME", "NSEC"):
+                if (key, s["t"]) in singles:
+                    continue
+                singles.add((key, s["t"]))
+                s["r"] = s["r"][:1]
+            keep.append(s)
+        sets = keep
         nodes.append({"owner": rel + spelled, "kind": kind, "tags": sorted(tags), "sets": sets})
         if kind == "deleg" and draw(st.booleans()) and G.wire_len(rel + origin) < 240:
             # glue beneath the delegation point
@@ -905,6 +914,7 @@ def run_respell(case):
     neg = case["neg"]
     classes = []
     items = []
+    origins_in_file = [origin_l] + [G.unhexl(it["to"]) for it in case["items"] if it["k"] == "origin"]
     for it in case["items"]:
         k = it["k"]
         if k == "rr":
@@ -921,10 +931,17 @@ def run_respell(case):
             if not _text_codec_ok(rd, rdclass):
                 classes.append("dropped:text-codec:" + it["t"])
                 continue
-            inzone = _has_relative_name(rdr)
-            generic_ok = not (inzone and EXCLUDE_GENERIC_READ)
-            if inzone and EXCLUDE_GENERIC_READ and it["p"].get("rd") == 1:
-                classes.append("excluded:generic-read")
+            generic_ok = True
+            if EXCLUDE_GENERIC_READ:
+                # the defect strikes when an embedded name lies at or below the origin in force
+                bad = set()
+                for cand in origins_in_file:
+                    if _has_relative_name(dns.rdata.from_wire(rdclass, it["c"], w, 0, len(w), dns.name.Name(cand))):
+                        bad.add(W.name_key(cand))
+                if bad:
+                    generic_ok = (lambda cur, bad=bad: W.name_key(cur) not in bad)
+                    if it["p"].get("rd") == 1:
+                        classes.append("excluded:generic-read")
             items.append({"k": "rr", "owner": G.unhexl(it["owner"]), "ttl": it["ttl"], "rdtype": it["c"], "type": it["t"],
                           "text": rd.to_text(), "wire": w, "name_rd": _simple_name_rd(it["t"], w),
                           "generic_ok": generic_ok, "p": it["p"], "conflict": it.get("conflict", False)})
